@@ -278,7 +278,7 @@ fn gram_suite(run: &Run, k: &K, pts: &[f64]) {
 }
 
 pub fn run(run: &Run) {
-    run.rule("RBF (25) and rational-quadratic (125) kernels over the parameter lattice {1e-2,.5,1,3,1e2}; scalar form on all 64 ordered pairs of an 8-point lattice in ±1e3 × {f64,&f64}; matrix form on every ordered tuple of 1..=2 (3 thorough) first-argument points × 1..=3 second-argument points for 6 kernels × 4 argument kinds and on fixed n≠m tuples and a set of nearly coincident points (1–3 ulps apart) for all kernels; Gram matrices of every point set of size 1..=5 (6 thorough) from the lattice; non-trivial = distinct points");
+    run.rule("RBF (25) and rational-quadratic (125) kernels over the parameter lattice {1e-2,.5,1,3,1e2}; scalar form on all 64 ordered pairs of an 8-point lattice in ±1e3 × {f64,&f64}; matrix form on every ordered tuple of 1..=2 (3 thorough) first-argument points × 1..=3 second-argument points for 6 kernels × 4 argument kinds and on fixed n≠m tuples and a set of nearly coincident points (1–3 ulps apart) for all kernels, and on every pair of point-set sizes from {1,2,7,8,9,16,17,31,32,33,40,59,60} (every pair of sizes 1..=60 thorough) for 6 kernels; Gram matrices of every point set of size 1..=5 (6 thorough) from the lattice; non-trivial = distinct points");
     // self-test of the eigenvalue oracle
     let e1 = jacobi_min_eig(&[2.0, -1.0, -1.0, 2.0].map(DD::new), 2);
     let e2 = jacobi_min_eig(&[1.0, 2.0, 0.0, 2.0, 1.0, 2.0, 0.0, 2.0, 1.0].map(DD::new), 3);
@@ -325,6 +325,20 @@ pub fn run(run: &Run) {
             }
         }
     }
+    // every shape: point sets of 1..60 points on either side (sizes straddling 8, 16, 32 where a
+    // product underneath may change its blocking), dyadic points, both argument kinds per shape
+    let sizes: Vec<usize> = if run.thorough() { (1..=60).collect() } else { vec![1, 2, 7, 8, 9, 16, 17, 31, 32, 33, 40, 59, 60] };
+    run.bound("matrix-form shapes", format!("{} × {} point-set sizes up to 60 × 6 kernels", sizes.len(), sizes.len()));
+    let shape_jobs: Vec<(usize, usize)> = sizes.iter().flat_map(|&a| sizes.iter().map(move |&b| (a, b))).collect();
+    shape_jobs.par_iter().for_each(|&(nx, ny)| {
+        let x: Vec<f64> = (0..nx).map(|i| -3.0 + 0.125 * i as f64).collect();
+        let y: Vec<f64> = (0..ny).map(|j| 2.5 - 0.0625 * (j * 3 % 61) as f64).collect();
+        for (ki, k) in sub.iter().enumerate() {
+            let kinds: &[usize] = if (nx + ny + ki) % 2 == 0 { &[0, 3] } else { &[1, 2] };
+            matrix_suite(run, k, &x, &y, kinds);
+            run.nontrivial(1);
+        }
+    });
     // Gram matrices of every point set
     let gmax = run.tier.pick(5usize, 6usize);
     run.bound("Gram point sets", format!("every subset of size 1..={} of the 8-point lattice (plus a 60-point dyadic grid in thorough) for all 150 kernels", gmax));
